@@ -8,6 +8,7 @@ import Rox.Props.C08
 import Rox.Lemmas.Size
 import Rox.Lemmas.RoundTrip
 import Rox.Lemmas.RoundTrip2
+import Rox.Lemmas.RoundTrip4
 import Rox.Lemmas.Emits
 import Rox.Props.C01
 
@@ -180,5 +181,54 @@ theorem token_kinds_by_region (T : Tables) (txt : Bytes) (s : Stream) (fuel dept
     Emits (parseDoctype T txt s) (fun t => t.isMisc = true ∨ t.isEntityDecl = true) ∧
     Emits (parseContent T txt fuel depth s) (fun t => t.isContent = true) :=
   ⟨parseProlog_emits T txt, parseDoctype_kinds T txt s, parseContent_emits T txt fuel depth s⟩
+
+/-- The table facts for processing instructions, the XML declaration and the DOCTYPE hold of the
+tables of the build. -/
+theorem generated_tables_canon4 : Rox.Spec.Canon4.TablesCanon4 Generated.tables := by
+  refine ⟨?_, ?_, ?_, ?_, ?_, ?_⟩
+  · decide
+  · decide
+  · apply all_bytes; decide +kernel
+  · apply all_bytes; decide +kernel
+  · apply all_bytes; decide +kernel
+  · decide
+
+/-- **Whole documents** (`parse ∘ renderDoc`, for EVERY document of the class
+`Rox.Spec.Canon4.docOk`: optional BOM, optional XML declaration with or without an encoding
+pseudo-attribute, comments and processing instructions before and after an optional `<!DOCTYPE n>`,
+the root element — any shape, with attributes, comments, processing instructions with or without
+value, text —, comments and processing instructions after it, and any white space (space, TAB, LF,
+CR) after every top-level item; every option value that admits it): parsing succeeds; the XML
+declaration, the DOCTYPE, the BOM and the white space yield no nodes; the comments and PIs of prolog
+and epilog are children of the root node in source order, around the root element's subtree; PI
+targets and values are the exact source strings, the value without its leading white space and
+`None` when empty. -/
+theorem whole_document_mirrors (y : Rox.Spec.Canon4.YDoc) (hy : Rox.Spec.Canon4.docOk y = true) (opt : Opt)
+    (hdtd : y.doctype.isSome = true → opt.allowDtd = true)
+    (hlim : Rox.Spec.Canon4.countAllY y.items + 1 ≤ opt.nodesLimit) (hl32 : opt.nodesLimit ≤ 4294967295)
+    (hattrs : Rox.Spec.Canon4.attrCountAllY y.items < 4294967295) :
+    ∃ d, parse Generated.tables (Rox.Spec.Canon4.renderDoc y) opt = .ok d ∧
+      d.nodes.toList.map (Rox.Spec.Canon4.viewY d) =
+        some (none, Rox.Spec.Canon4.YKind.root) ::
+          (Rox.Spec.Canon4.expectAllY 0 1 y.items).map some :=
+  parse_renderDoc Generated.tables C01.generated_tables_ok generated_tables_canon generated_tables_canon4
+    y hy opt hdtd hlim hl32 hattrs
+
+/-- **BOM, declaration, DOCTYPE and white space never change the tree**: two documents of the class
+that differ only in those (same Misc items, same root element) parse to arenas with the same
+content. -/
+theorem prolog_variation_insensitive (y y' : Rox.Spec.Canon4.YDoc)
+    (hy : Rox.Spec.Canon4.docOk y = true) (hy' : Rox.Spec.Canon4.docOk y' = true)
+    (hsame : y.items = y'.items) (opt : Opt)
+    (hdtd : y.doctype.isSome = true → opt.allowDtd = true)
+    (hdtd' : y'.doctype.isSome = true → opt.allowDtd = true)
+    (hlim : Rox.Spec.Canon4.countAllY y.items + 1 ≤ opt.nodesLimit) (hl32 : opt.nodesLimit ≤ 4294967295)
+    (hattrs : Rox.Spec.Canon4.attrCountAllY y.items < 4294967295) :
+    ∃ d d', parse Generated.tables (Rox.Spec.Canon4.renderDoc y) opt = .ok d ∧
+      parse Generated.tables (Rox.Spec.Canon4.renderDoc y') opt = .ok d' ∧
+      d.nodes.toList.map (Rox.Spec.Canon4.viewY d) = d'.nodes.toList.map (Rox.Spec.Canon4.viewY d') := by
+  obtain ⟨d, h1, h2⟩ := whole_document_mirrors y hy opt hdtd hlim hl32 hattrs
+  obtain ⟨d', h1', h2'⟩ := whole_document_mirrors y' hy' opt hdtd' (hsame ▸ hlim) hl32 (hsame ▸ hattrs)
+  exact ⟨d, d', h1, h1', by rw [h2, h2', hsame]⟩
 
 end Rox.Props.C03
